@@ -195,6 +195,31 @@ impl Uci {
         }
     }
 
+    /// Like `wait_for`, but against an absolute deadline (for the few oracles about elapsed time).
+    pub fn wait_until(&mut self, deadline: Instant, mut pred: impl FnMut(&Line) -> bool) -> Option<usize> {
+        loop {
+            let now = Instant::now();
+            if now >= deadline {
+                return None;
+            }
+            match self.rx.recv_timeout(deadline - now) {
+                Ok(l) => {
+                    let closed = matches!(l, Line::OutClosed);
+                    let hit = pred(&l);
+                    self.log.push(l);
+                    self.stamps.push(Instant::now());
+                    if hit {
+                        return Some(self.log.len() - 1);
+                    }
+                    if closed {
+                        return None;
+                    }
+                }
+                Err(_) => return None,
+            }
+        }
+    }
+
     pub fn wait_out(&mut self, timeout: Duration, text: &str) -> Option<usize> {
         self.wait_for(timeout, |l| matches!(l, Line::Out(s) if s.trim() == text))
     }
